@@ -132,7 +132,7 @@ Theorem eval_is_python {V} (A : pyops V) (leaf : tok → res V) s e :
   (t ←r build EvalTables.op_priority (render s e ++ [TEnd]);
    evaluate leaf (bin_of_tables A) (un_of_tables A) t) = eval_expr A leaf e.
 Proof.
-  intros Hl Hc. rewrite op_priority_tie, (parse_render s e Hl). simpl.
+  intros Hl Hc. unfold build. rewrite op_priority_tie, (parse_render _ _ s e Hl). simpl.
   rewrite tree_of_strip. by apply evaluate_tree_of.
 Qed.
 
